@@ -36,7 +36,7 @@ Post(p) ==
     /\ \A i \in 1..Len(SS) : \A j \in 1..Len(AS) : pools'[SS[i]][AS[j]] = p.pools[i][j]
     /\ DOMAIN grp' = {<<p.grp[i].h, p.grp[i].kind, p.grp[i].n>> : i \in 1..Len(p.grp)}
     /\ \A i \in 1..Len(p.grp) : LET g == grp'[<<p.grp[i].h, p.grp[i].kind, p.grp[i].n>>] IN
-                                    g.left = ToSet(p.grp[i].left) /\ g.ok = p.grp[i].ok
+                                    g.left = ToSet(p.grp[i].left) /\ g.ok = p.grp[i].ok /\ g.open = p.grp[i].open
     /\ BagIs(exec', p.exec)
     /\ BagIs(sched', p.sched)
     /\ lbpLive' = ToSet(p.lbpLive)
